@@ -415,7 +415,7 @@ class POSet:
         for cache_name in cache_names:
             cache_comb = self._combine_caches(
                 self.__dict__[cache_name], self._elements,
-                other.__dict__[cache_name], other._elements,
+                other.__dict__.get(cache_name, {}), other._elements,
                 poset_combined._elements
             )
 
